@@ -18,9 +18,11 @@ Definition copy_lins (u : unit_t) (m : option (list nat)) (cl : option sym) : li
   {| l_open := false; l_name := u_name u; l_mult := m; l_rings := []; l_bond := u_bond u; l_close := None |}
   :: body_lins true cl (u_body u).
 Definition unit_long (u : unit_t) : list lin :=
-  copy_lins u (u_mult u) (u_ms u)
-  ++ concat (repeat (copy_lins u None (u_ms u)) (digits_nat (u_count u) - 2))
-  ++ copy_lins u None (u_after u).
+  match digits_nat (u_count u) with
+  | O | Datatypes.S O => copy_lins u (u_mult u) (u_after u)
+  | Datatypes.S (Datatypes.S k) =>
+      copy_lins u (u_mult u) (u_ms u) ++ concat (repeat (copy_lins u None (u_ms u)) k) ++ copy_lins u None (u_after u)
+  end.
 Definition seg_long (s : seg) : list lin := match s with SPlain i => [i] | SUnit u => unit_long u end.
 Definition segs_long (l : list seg) : list lin := flat_map seg_long l.
 
@@ -64,21 +66,24 @@ Proof.
   intros Hne Hl. rewrite copy_lins_toks by assumption. unfold copy_core. cbn [app]. f_equal.
   repeat (rewrite <- app_assoc; cbn [app]). reflexivity.
 Qed.
-Lemma unit_long_toks u : u_body u <> [] -> last_bond_none (u_body u) -> (2 <= digits_nat (u_count u))%nat ->
+Lemma unit_long_toks u : u_body u <> [] -> last_bond_none (u_body u) -> (1 <= digits_nat (u_count u))%nat ->
   lins_toks (unit_long u) = unit_toks u.
 Proof.
-  intros Hne Hl HN. unfold unit_long. rewrite !lins_toks_app, lins_toks_concat, !copy_lins_core by assumption.
-  rewrite <- app_assoc. rewrite (interleave (osym_tok (u_ms u)) (copy_core u None) (osym_tok (u_after u))).
-  replace (Datatypes.S (digits_nat (u_count u) - 2)) with (digits_nat (u_count u) - 1)%nat by lia.
-  unfold unit_toks, copy_core. change (mult_val None) with 1%nat. cbn [app]. f_equal.
-  repeat (rewrite <- app_assoc; cbn [app]). reflexivity.
+  intros Hne Hl HN. unfold unit_long. destruct (digits_nat (u_count u)) as [|[|k]] eqn:EN; [lia| |].
+  - rewrite copy_lins_core by assumption. unfold unit_toks, copy_core. rewrite EN. cbn [Nat.sub repeat concat app]. f_equal.
+    repeat (rewrite <- app_assoc; cbn [app]). reflexivity.
+  - rewrite !lins_toks_app, lins_toks_concat, !copy_lins_core by assumption.
+    rewrite <- app_assoc. rewrite (interleave (osym_tok (u_ms u)) (copy_core u None) (osym_tok (u_after u))).
+    unfold unit_toks, copy_core. rewrite EN. replace (Datatypes.S (Datatypes.S k) - 1)%nat with (Datatypes.S k) by lia.
+    change (mult_val None) with 1%nat. cbn [app]. f_equal.
+    repeat (rewrite <- app_assoc; cbn [app]). reflexivity.
 Qed.
 
 (** the longhand is a flat string of the grammar *)
 Lemma unit_ok_parts fo u : unit_ok fo u = true ->
   name_ok fo (u_name u) = true /\ sn_okb (u_mult u) (u_bond u) = true /\ u_body u <> []
   /\ body_ok fo (oord (u_bond u)) (u_body u) = true /\ last_bond_none (u_body u)
-  /\ digits_ok (u_count u) = true /\ (2 <= digits_nat (u_count u))%nat.
+  /\ digits_ok (u_count u) = true /\ (1 <= digits_nat (u_count u))%nat.
 Proof.
   unfold unit_ok. intros Hok.
   apply andb_prop in Hok as [Hok HN]. apply andb_prop in Hok as [Hok Hd]. apply andb_prop in Hok as [Hok Hlb].
@@ -91,12 +96,12 @@ Lemma body_lins_ok fo cl : forall body inc first, body_ok fo inc body = true -> 
   forallb (lin_ok fo) (body_lins first cl body) = true.
 Proof.
   induction body as [|b r IH]; intros inc first Hok Hl; [reflexivity|].
-  cbn [body_ok] in Hok. apply andb_prop in Hok as [Hok Hr]. apply andb_prop in Hok as [Hok _]. apply andb_prop in Hok as [Hn Hs].
+  cbn [body_ok] in Hok. apply andb_prop in Hok as [Hok Hr]. apply andb_prop in Hok as [Hn Hs].
   destruct r as [|b' r'].
   - unfold last_bond_none in Hl. cbn in Hl. cbn [body_lins forallb]. rewrite andb_true_r.
     unfold lin_ok. cbn [l_name l_rings l_mult l_bond l_close]. rewrite Hl, Hn. cbn [forallb is_nil is_some negb andb].
-    unfold sn_okb in Hs. rewrite Hl in Hs. destruct (bn_mult b); [|reflexivity].
-    apply andb_prop in Hs as [Hs _]. apply andb_prop in Hs as [H1 H2]. now rewrite H1, H2.
+    unfold sn_okb in Hs. destruct (bn_mult b); [|reflexivity].
+    apply andb_prop in Hs as [H1 H2]. now rewrite H1, H2.
   - change (body_lins first cl (b :: b' :: r')) with (blin first b :: body_lins false cl (b' :: r')).
     cbn [forallb]. rewrite (blin_ok fo first b Hn Hs). cbn [andb]. apply (IH _ false Hr). now apply (last_bond_cons b).
 Qed.
@@ -117,13 +122,14 @@ Proof.
   - unfold copy_lins. cbn [forallb]. rewrite (body_lins_ok fo cl _ _ true Hbo Hl), andb_true_r.
     unfold lin_ok. cbn [l_name l_rings l_mult l_bond l_close forallb is_nil]. rewrite Hn. cbn [andb]. rewrite andb_true_r.
     destruct Hm as [->| ->]; [|reflexivity]. unfold sn_okb in Hs. destruct (u_mult u); [|reflexivity].
-    apply andb_prop in Hs as [Hs H3]. apply andb_prop in Hs as [H1 H2]. now rewrite H1, H2, H3.
+    apply andb_prop in Hs as [H1 H2]. now rewrite H1, H2.
   - intros d. unfold copy_lins. cbn [drun l_open l_close]. now destruct (body_lins_depth cl (u_body u) d Hne).
 Qed.
 Lemma unit_long_ok fo u : unit_ok fo u = true -> forallb (lin_ok fo) (unit_long u) = true /\ balanced (unit_long u).
 Proof.
   intros Hok. unfold unit_long.
   destruct (copy_lins_ok fo u (u_mult u) (u_ms u) Hok (or_introl eq_refl)) as [A1 A2].
+  destruct (copy_lins_ok fo u (u_mult u) (u_after u) Hok (or_introl eq_refl)) as [D1 D2].
   destruct (copy_lins_ok fo u None (u_ms u) Hok (or_intror eq_refl)) as [B1 B2].
   destruct (copy_lins_ok fo u None (u_after u) Hok (or_intror eq_refl)) as [C1 C2].
   assert (HR : forall n, forallb (lin_ok fo) (concat (repeat (copy_lins u None (u_ms u)) n)) = true
@@ -131,7 +137,8 @@ Proof.
   { induction n as [|n [I1 I2]]; [split; [reflexivity|intros d; reflexivity]|]. cbn [repeat concat]. split.
     - now rewrite forallb_app, B1, I1.
     - now apply balanced_app. }
-  destruct (HR (digits_nat (u_count u) - 2)%nat) as [R1 R2]. split.
+  destruct (digits_nat (u_count u)) as [|[|k]]; [split; assumption|split; assumption|].
+  destruct (HR k) as [R1 R2]. split.
   - now rewrite !forallb_app, A1, R1, C1.
   - apply balanced_app; [assumption|]. now apply balanced_app.
 Qed.
@@ -161,7 +168,8 @@ Proof.
   { clear Hd Hf. induction l as [|s t IH]; [reflexivity|]. cbn [forallb] in Hok. apply andb_prop in Hok as [Hs Ht].
     unfold segs_long. cbn [flat_map]. rewrite forallb_app. fold (segs_long t). rewrite (IH Ht), andb_true_r.
     destruct s as [i|u]; cbn [seg_long seg_ok] in *; [cbn; now rewrite Hs|now destruct (unit_long_ok fo u Hs)]. }
-  rewrite Hall. cbn [andb]. destruct l as [|[i|u] t]; [reflexivity|exact Hf|reflexivity].
+  rewrite Hall. cbn [andb]. destruct l as [|[i|u] t]; [reflexivity|exact Hf|].
+  unfold segs_long. cbn [flat_map seg_long]. unfold unit_long. destruct (digits_nat (u_count u)) as [|[|k]]; reflexivity.
 Qed.
 
 (** ** C05 for branch multipliers (units at top level): the SAME graph, the SAME numbering *)
